@@ -157,6 +157,10 @@ func deflate(b []byte, level int) []byte {
 	return out
 }
 
+// Deflate and Inflate are the peer-side permessage-deflate codec (RFC 7692) for other worlds.
+func Deflate(b []byte) []byte          { return deflate(b, 6) }
+func Inflate(b []byte) ([]byte, error) { return inflate(b) }
+
 // deflateFinal compresses b as one stream that ends with a BFINAL block, the alternative that
 // RFC 7692 section 7.2.3.4 allows a sender (followed by the 0x00 octet it prescribes).
 func deflateFinal(b []byte, level int) []byte {
